@@ -144,6 +144,8 @@ enum Act {
     MakeBuffer(Who, u8),
     ApplyBuffer(Who),
     Adv(i64),
+    /// the store admin disables / re-enables the MARKET_CONFIG_KEEPER role (real disable_role / enable_role)
+    SetConfigRole(bool),
 }
 
 #[derive(Clone)]
@@ -157,6 +159,8 @@ struct St {
     /// per owner (index by Who): entry mask and expiry, if a buffer exists
     buffers: [Option<(u8, i64)>; 3],
     counter: u128,
+    /// is the MARKET_CONFIG_KEEPER role enabled in the store? (a disabled role entitles nobody)
+    config_role: bool,
 }
 
 struct Pol {
@@ -195,7 +199,7 @@ impl Machine for Pol {
         &self.acts
     }
     fn key(&self, s: &St) -> u128 {
-        mc_core::hash128(&(s.updatable, s.flag_updatable, s.values, s.flag, s.buffers, s.now))
+        mc_core::hash128(&(s.updatable, s.flag_updatable, s.values, s.flag, s.buffers, s.now, s.config_role))
     }
     fn step(&self, s: &St, a: &Act, out: &mut StepOut) -> St {
         let mut n = s.clone();
@@ -221,7 +225,7 @@ impl Machine for Pol {
             Act::Update(i, by) => {
                 let value = 5_000 + idx(by) as u128 + i as u128 * 100;
                 let r = process(&mut n.db, &upd(w, who_key(w, by), K[i], value), &[who_key(w, by)]);
-                let ok = by == Who::MarketKeeper || (by == Who::ConfigKeeper && s.updatable[i]);
+                let ok = by == Who::MarketKeeper || (by == Who::ConfigKeeper && s.config_role && s.updatable[i]);
                 if ok {
                     n.values[i] = value;
                 }
@@ -229,7 +233,7 @@ impl Machine for Pol {
             }
             Act::UpdateFlag(by) => {
                 let r = process(&mut n.db, &updf(w, who_key(w, by), F, !s.flag), &[who_key(w, by)]);
-                let ok = by == Who::MarketKeeper || (by == Who::ConfigKeeper && s.flag_updatable);
+                let ok = by == Who::MarketKeeper || (by == Who::ConfigKeeper && s.config_role && s.flag_updatable);
                 if ok {
                     n.flag = !s.flag;
                 }
@@ -261,7 +265,7 @@ impl Machine for Pol {
                     None => false,
                     Some((mask, expiry)) => {
                         let all_updatable = (0..2).all(|i| mask & (1 << i) == 0 || s.updatable[i]);
-                        s.now < expiry && (owner == Who::MarketKeeper || (owner == Who::ConfigKeeper && all_updatable))
+                        s.now < expiry && (owner == Who::MarketKeeper || (owner == Who::ConfigKeeper && s.config_role && all_updatable))
                     }
                 };
                 if ok {
@@ -277,6 +281,21 @@ impl Machine for Pol {
             Act::Adv(dt) => {
                 n.now += dt;
                 (None, true)
+            }
+            Act::SetConfigRole(enable) => {
+                let role = "MARKET_CONFIG_KEEPER".to_string();
+                let r = if enable {
+                    process(&mut n.db, &ix(w.pid, gmsol_store::accounts::EnableRole { authority: w.admin, store: w.store }, gmsol_store::instruction::EnableRole { role }), &[w.admin])
+                } else {
+                    process(&mut n.db, &ix(w.pid, gmsol_store::accounts::DisableRole { authority: w.admin, store: w.store }, gmsol_store::instruction::DisableRole { role }), &[w.admin])
+                };
+                if r.is_ok() {
+                    n.config_role = enable;
+                } else if s.config_role != enable {
+                    out.fail("C20/cannot_switch_the_config_keeper_role", format!("{a:?}: {r:?}"));
+                }
+                out.label = "env";
+                return n;
             }
         };
         if let Some(r) = r {
@@ -302,7 +321,7 @@ impl Machine for Pol {
 
 pub fn run(cli: &Cli) -> Report {
     let mut rep = Report::new(cli, "model_checking");
-    rep.rule("real store instructions through gmsol_store::entry: (1) E1 matrices — every MarketConfigKey and MarketConfigFlag x {not updatable, updatable} x {market keeper, market-config keeper, stranger} for update_market_config(_flag) and set_market_config_updatable; (2) E2 BFS over histories of permission changes, updates by every actor, per-owner config buffers with updatable/mixed/empty entries, buffer application and clock advances across the buffer expiry, against a reference policy; rejected calls must leave the market account byte-identical");
+    rep.rule("real store instructions through gmsol_store::entry: (1) E1 matrices — every MarketConfigKey and MarketConfigFlag x {not updatable, updatable} x {market keeper, market-config keeper, stranger} for update_market_config(_flag) and set_market_config_updatable; (2) E2 BFS over histories of permission changes, updates by every actor, per-owner config buffers with updatable/mixed/empty entries, buffer application, clock advances across the buffer expiry and the admin disabling (thorough: re-enabling) the MARKET_CONFIG_KEEPER role, against a reference policy; rejected calls must leave the market account byte-identical");
     rep.assume("svm-lite runtime trusted; roles are fabricated through the public Store role functions");
     let (db, w) = world::build();
     let mut db = db;
@@ -324,12 +343,13 @@ pub fn run(cli: &Cli) -> Report {
         Act::MakeBuffer(Who::ConfigKeeper, 0b01), Act::MakeBuffer(Who::ConfigKeeper, 0b11), Act::MakeBuffer(Who::MarketKeeper, 0b11), Act::MakeBuffer(Who::Stranger, 0b01),
         Act::ApplyBuffer(Who::ConfigKeeper), Act::ApplyBuffer(Who::MarketKeeper), Act::ApplyBuffer(Who::Stranger),
         Act::Adv(99), Act::Adv(1),
+        Act::SetConfigRole(false),
     ];
     if th {
-        acts.extend([Act::MakeBuffer(Who::ConfigKeeper, 0b10), Act::MakeBuffer(Who::ConfigKeeper, 0b00), Act::SetUpdatable(1, false), Act::SetFlagUpdatable(false), Act::UpdateFlag(Who::MarketKeeper), Act::Update(1, Who::MarketKeeper)]);
+        acts.extend([Act::MakeBuffer(Who::ConfigKeeper, 0b10), Act::MakeBuffer(Who::ConfigKeeper, 0b00), Act::SetUpdatable(1, false), Act::SetFlagUpdatable(false), Act::UpdateFlag(Who::MarketKeeper), Act::Update(1, Who::MarketKeeper), Act::SetConfigRole(true)]);
     }
     let pol = Pol { w: w.clone(), acts };
-    let start = St { db: db.clone(), now: 1_000, updatable: [false; 2], flag_updatable: false, values, flag: flag0, buffers: [None; 3], counter: 0 };
+    let start = St { db: db.clone(), now: 1_000, updatable: [false; 2], flag_updatable: false, values, flag: flag0, buffers: [None; 3], counter: 0, config_role: true };
     if let Some(rv) = &cli.replay {
         e2::replay_into(&mut rep, &pol, &[start], rv);
         return rep;
